@@ -264,7 +264,8 @@ def inject(p, cls, r):
             ops.insert(i, {"op": "flow", "kind": kind, "name": "badrate", "param": "0", "src": a, "dst": b, "pyrate": bad})
         return q, i + 1
     if cls == "after_finalize":
-        change = r.choice([
+        _AFTER_FINALIZE[0] += 1
+        change = (lambda l_: l_[_AFTER_FINALIZE[0] % len(l_)])([
             {"op": "flow", "kind": "transition", "name": "late", "param": "1/2", "src": comps[0], "dst": comps[1]},
             {"op": "flow", "kind": "importation", "name": "late", "param": "1", "dst": comps[0]},
             {"op": "flow", "kind": "death", "name": "late", "param": "1/8", "src": comps[0]},
@@ -286,6 +287,7 @@ def inject(p, cls, r):
     return None
 
 
+_AFTER_FINALIZE = [0]
 CLASSES = ["end_before_start", "timestep_not_dividing", "timestep_not_dividing_long", "unknown_infectious", "unknown_population_compartment",
            "unknown_stratified_compartment", "unknown_flow_compartment", "output_for_unknown_compartment",
            "output_for_unknown_flow", "adjusting_unknown_flow", "unknown_filter_strata", "unknown_output_source",
